@@ -143,7 +143,13 @@ impl SnapCopy {
     }
 }
 
-pub const UNIVERSE: u32 = 40;
+/// Number of indices scanned when copying a snapshot: 40 for the small scenarios, the preload
+/// size plus a margin for the large-input family (set per scenario before it is run).
+pub static UNIVERSE_N: std::sync::atomic::AtomicU32 = std::sync::atomic::AtomicU32::new(40);
+#[allow(non_snake_case)]
+fn UNIVERSE() -> u32 {
+    UNIVERSE_N.load(std::sync::atomic::Ordering::Relaxed)
+}
 
 #[derive(Clone, Debug)]
 pub enum Obs {
@@ -194,9 +200,41 @@ fn copy_snapshot(n: &Nucleo<Tracked>, cols: u32, refm: &mut Matcher) -> SnapCopy
         consistent &= via_iter == want;
         consistent &= via_get.len() == want.len() + 1 && via_get[want.len()].is_none() && via_get[..want.len()].iter().all(|x| x.is_some());
         consistent &= via_get[..want.len()].iter().map(|x| x.unwrap()).collect::<Vec<_>>() == want;
+        // every sub-range in every bound form (small snapshots): contents, reported length, reverse order
+        if want.len() <= 6 {
+            use std::ops::Bound;
+            let n = want.len() as u32;
+            for i in 0..=n {
+                for j in i..=n {
+                    let w = &want[i as usize..j as usize];
+                    let mut forms: Vec<Vec<ItemData>> = vec![
+                        s.matched_items(i..j).map(|it| it.data.key).collect(),
+                        s.matched_items((Bound::Included(i), Bound::Excluded(j))).map(|it| it.data.key).collect(),
+                    ];
+                    let it = s.matched_items(i..j);
+                    consistent &= it.len() == w.len();
+                    let mut rev: Vec<ItemData> = s.matched_items(i..j).rev().map(|it| it.data.key).collect();
+                    rev.reverse();
+                    forms.push(rev);
+                    if j > i {
+                        forms.push(s.matched_items(i..=j - 1).map(|it| it.data.key).collect());
+                    }
+                    if i > 0 {
+                        forms.push(s.matched_items((Bound::Excluded(i - 1), Bound::Excluded(j))).map(|it| it.data.key).collect());
+                    }
+                    if j == n {
+                        forms.push(s.matched_items(i..).map(|it| it.data.key).collect());
+                    }
+                    if i == 0 {
+                        forms.push(s.matched_items(..j).map(|it| it.data.key).collect());
+                    }
+                    consistent &= forms.iter().all(|f| f == w);
+                }
+            }
+        }
     }
     let mut universe = Vec::new();
-    for idx in 0..UNIVERSE {
+    for idx in 0..UNIVERSE() {
         if let Some(it) = s.get_item(idx) {
             universe.push(Uni {
                 idx,
@@ -265,7 +303,7 @@ fn do_push_held(exec: &Exec, shared: &Shared, thread: usize, inj: &Injector<Trac
         }));
     }
     // the call has returned: every item of the call must be visible now (and where push said)
-    let mut visible = ids.iter().all(|id| (0..UNIVERSE).any(|i| inj.get(i).map_or(false, |it| it.data.key.id == *id && it.data.key.gen == gen)));
+    let mut visible = ids.iter().all(|id| (0..UNIVERSE()).any(|i| inj.get(i).map_or(false, |it| it.data.key.id == *id && it.data.key.gen == gen)));
     if let Some(i) = first_idx {
         visible &= inj.get(i).map_or(false, |it| it.data.key.id == items[0].id);
     }
@@ -278,6 +316,7 @@ pub fn run_scenario(scn: &Scenario, prefix: &[usize]) -> RunResult {
     let config = Config::DEFAULT;
     DROPS.lock().unwrap_or_else(|e| e.into_inner()).clear();
     HANDLES.lock().unwrap_or_else(|e| e.into_inner()).clear();
+    UNIVERSE_N.store(if scn.name.starts_with("Big/") { scn.preload.len() as u32 + 64 } else { 40 }, std::sync::atomic::Ordering::Relaxed);
     let exec = Exec::new(prefix.to_vec(), scn.pool_threads, scn.slots, scn.fine, scn.flag_points);
     let shared = Arc::new(Shared {
         obs: Mutex::new(Vec::new()),
